@@ -195,6 +195,17 @@ def search(ctx):
     decos = [d for d in f.decorators if d != "classmethod"]
     ctx.check(not decos, R, f, f.node, "from_alias carries no caching/wrapping decorator",
               "from_alias is wrapped by %s; a memoised search ignores classes registered later" % decos)
+    # 1b. the alias searched for is the caller's, unmodified (aliases are compared exactly as registered)
+    for n in f.body_nodes():
+        if isinstance(n, ast.stmt):
+            for t in astq.store_targets(n):
+                for x in astq.flatten_targets(t):
+                    if astq.is_name(x, aliasname):
+                        ctx.bad(R, f, n, "the requested alias is rewritten before the search (%s) while registered aliases are compared as written: "
+                                "an alias registered with a different spelling (upper case, surrounding blanks) no longer resolves to its class, "
+                                "or resolves to another class that owns the rewritten spelling" % astq.text(n)[:80], "alias compared as given")
+        if isinstance(n, (ast.For, ast.comprehension)) and any(astq.is_name(x, aliasname) for x in ast.walk(n.target)):
+            ctx.bad(R, f, n if isinstance(n, ast.stmt) else f.node, "the alias parameter is rebound by a loop", "alias compared as given")
     # 2. exits: return <cand>(*args, **kwargs) under `alias in <cand>.aliases`; raise ValueError
     pm = astq.parents(f)
     rets = astq.returns_of(f)
